@@ -64,7 +64,7 @@ def build(jobs=16):
                 if f not in failed:
                     failed.append(f)
         model_ok = all(os.path.exists(os.path.join(COQ, 'theories', f + '.vo'))
-                       for f in ('Prelude', 'Cov', 'Map', 'Spec', 'Exec'))
+                       for f in MODEL_FILES)
         if not model_ok:
             raise BuildError('model files failed to build:\n' + out[-4000:])
         # extraction + runner, only when the model changed
@@ -87,7 +87,7 @@ def build(jobs=16):
         lock.close()
 
 
-MODEL_FILES = ['Prelude', 'Cov', 'Map', 'Spec', 'Exec']
+MODEL_FILES = ['Prelude', 'Cov', 'Map', 'Spec', 'Exec', 'Ops', 'Spec2', 'Exec2']
 
 
 def check_property_file(pid):
